@@ -85,7 +85,8 @@ def make_case(i, rng, tier):
     prop = None
     if base == "Schema" and rng.random() < 0.45:
         dep = rng.choice(fields)
-        prop = {"dep": dep["name"], "with_field": rng.random() < 0.8}
+        # property names with capitals matter for case-insensitive classes (fields are indexed by folded name)
+        prop = {"dep": dep["name"], "with_field": rng.random() < 0.8, "name": rng.choice(["prop", "prop", "propName", "Prop"])}
     opts = {}
     r = rng.random()
     if r < 0.25:
@@ -100,6 +101,8 @@ def make_case(i, rng, tier):
         opts["immutable"] = True
     if rng.random() < 0.15:
         opts["ignore_delete_nonexistent"] = True
+    if rng.random() < 0.15:
+        opts["case_insensitive"] = True
     init = {}
     for f in fields:
         if f["required"] or rng.random() < 0.6:
@@ -204,8 +207,8 @@ def build(case):
             return _fn(getattr(self, _dep))
 
         getter.__annotations__ = {"return": int}
-        getter.__name__ = "prop"
-        ns["prop"] = property(Field(dependencies=[dep])(getter) if case["prop"]["with_field"] else getter)
+        getter.__name__ = case["prop"].get("name", "prop")
+        ns[getter.__name__] = property(Field(dependencies=[dep])(getter) if case["prop"]["with_field"] else getter)
     return type(basecls)(name, (basecls,), ns)
 
 
@@ -229,7 +232,7 @@ class Snap:
         self.prop = None
         if case["prop"]:
             try:
-                self.prop = ("ok", getattr(inst, "prop"))
+                self.prop = ("ok", getattr(inst, case["prop"].get("name", "prop")))
             except Exception as e:
                 self.prop = ("err", type(e).__name__)
 
@@ -287,7 +290,7 @@ def check_invariants(case, inst, snap, init_snap):
                     out.append(("I4-views-disagree", f"field {f['name']}: mapping {snap.kv[out_name]!r} != attribute {val!r}"))
     if snap.kv is not None:
         for k, v in snap.kv.items():
-            if k in names or k == "prop":
+            if k in names or (case["prop"] and k == case["prop"].get("name", "prop")):
                 continue
             if is_sentinel(v):
                 out.append(("I1-sentinel-stored", f"mapping holds the sentinel under extra key {k!r}"))
@@ -297,6 +300,7 @@ def check_invariants(case, inst, snap, init_snap):
                 out.append(("I1-extra-key-stored", f"extra key {k!r} stored though addition={add}"))
     if case["prop"] and case["prop"]["with_field"]:
         dep = case["prop"]["dep"]
+        pname = case["prop"].get("name", "prop")
         df = next(f for f in fields if f["name"] == dep)
         if dep in snap.av and conforms_leaf(df["type"], snap.av[dep]) and not (df["type"] == "optint" and False):
             try:
@@ -306,8 +310,8 @@ def check_invariants(case, inst, snap, init_snap):
             if exp is not None:
                 if snap.prop != ("ok", exp):
                     out.append(("I5-property-stale", f"prop attribute is {snap.prop}, getter on current state gives {exp!r} ({dep}={snap.av[dep]!r})"))
-                elif snap.kv is not None and "prop" in snap.kv and snap.kv["prop"] != exp:
-                    out.append(("I5-property-stale", f"mapping['prop'] is {snap.kv['prop']!r}, getter on current state gives {exp!r}"))
+                elif snap.kv is not None and pname in snap.kv and snap.kv[pname] != exp:
+                    out.append(("I5-property-stale", f"mapping[{pname!r}] is {snap.kv[pname]!r}, getter on current state gives {exp!r}"))
     return out
 
 
